@@ -146,34 +146,48 @@ def calls_for(d, grid, rnd_seed):
     def active():
         if vals is None or len(vals) < 2 or d["kind"].startswith("ordinal_nn"):
             return
-        alo, ahi = 1, len(vals) - 1
         k = d["kind"]
-        if k in ("randint", "lograndint"):
-            adom = (cs.randint if k == "randint" else cs.lograndint)(vals[alo], vals[ahi])
-        elif k == "choice":
-            adom = cs.choice(vals[alo:ahi + 1])
-        elif k == "ordinal":
-            adom = cs.ordinal(vals[alo:ahi + 1], kind="equal")
-        else:
-            return
-        h2 = make_hyperparameter_ranges(space, active_config_space={"h": adom})
-        # search is restricted to the active range through the encoded bounds: every vector inside get_ndarray_bounds()
-        # and every random_config must decode into the active sub-range
-        bounds = h2.get_ndarray_bounds()
-        pts = [Fraction(k, grid) for k in range(grid + 1)]
-        for p in pts:
-            x = np.array([lo + float(p) * (hi - lo) for (lo, hi) in bounds])
-            cfg = h2.from_ndarray(x)
-            out.append({"f": "decode", "d": d, "v": project(d, dom, vals, cfg["h"]), "hasactive": True, "alo": alo, "ahi": ahi,
-                        "x": str(p), "tag": "active-all-coordinates-equal"})
-            x = np.array([lo + rs.rand() * (hi - lo) for (lo, hi) in bounds])       # general position inside the bounds
-            cfg = h2.from_ndarray(x)
-            out.append({"f": "decode", "d": d, "v": project(d, dom, vals, cfg["h"]), "hasactive": True, "alo": alo, "ahi": ahi,
-                        "x": "random-in-bounds", "tag": "active-bounds"})
-        for _ in range(6):
-            cfg = h2.random_config(rs)
-            out.append({"f": "decode", "d": d, "v": project(d, dom, vals, cfg["h"]), "hasactive": True, "alo": alo, "ahi": ahi,
-                        "x": "random_config", "tag": "active-random"})
+        # two sub-ranges: without the first value, and without the last one (the latter has internal lower bound 0)
+        for (alo, ahi) in ((1, len(vals) - 1), (0, len(vals) - 2)):
+            if k in ("randint", "lograndint"):
+                adom = (cs.randint if k == "randint" else cs.lograndint)(vals[alo], vals[ahi])
+            elif k == "choice":
+                adom = cs.choice(vals[alo:ahi + 1])
+            elif k == "ordinal":
+                adom = cs.ordinal(vals[alo:ahi + 1], kind="equal")
+            else:
+                return
+            h2 = make_hyperparameter_ranges(space, active_config_space={"h": adom})
+            # search is restricted to the active range through the encoded bounds: every vector inside
+            # get_ndarray_bounds() and every random_config must decode into the active sub-range
+            bounds = h2.get_ndarray_bounds()
+            b0, b1 = h2.encoded_ranges["h"]
+
+            def tag_of(x, default):
+                # the block of h in the encoding: a tie among its coordinates is the known one-hot arg-max case
+                blk = x[b0:b1]
+                return "active-one-hot-tie" if (b1 - b0 > 1 and len(set(blk.tolist())) == 1) else default
+            pts = [Fraction(j, grid) for j in range(grid + 1)]
+            for p in pts:
+                x = np.array([lo + float(p) * (hi - lo) for (lo, hi) in bounds])
+                cfg = h2.from_ndarray(x)
+                out.append({"f": "decode", "d": d, "v": project(d, dom, vals, cfg["h"]), "hasactive": True, "alo": alo, "ahi": ahi,
+                            "x": str(p), "tag": tag_of(x, "active-grid")})
+                x = np.array([lo + rs.rand() * (hi - lo) for (lo, hi) in bounds])       # general position inside the bounds
+                cfg = h2.from_ndarray(x)
+                out.append({"f": "decode", "d": d, "v": project(d, dom, vals, cfg["h"]), "hasactive": True, "alo": alo, "ahi": ahi,
+                            "x": "random-in-bounds", "tag": tag_of(x, "active-bounds")})
+            # the corners of the search box
+            for corner in range(min(2 ** len(bounds), 16)):
+                x = np.array([(hi if (corner >> j) & 1 else lo) for j, (lo, hi) in enumerate(bounds)])
+                cfg = h2.from_ndarray(x)
+                tag = tag_of(x, "active-corner")
+                out.append({"f": "decode", "d": d, "v": project(d, dom, vals, cfg["h"]), "hasactive": True, "alo": alo, "ahi": ahi,
+                            "x": f"corner{corner}", "tag": tag})
+            for _ in range(6):
+                cfg = h2.random_config(rs)
+                out.append({"f": "decode", "d": d, "v": project(d, dom, vals, cfg["h"]), "hasactive": True, "alo": alo, "ahi": ahi,
+                            "x": "random_config", "tag": "active-random"})
     guard(active, "active")
 
     def jsonrt():
@@ -202,7 +216,7 @@ def run(rep, tier, seed):
     maxu, maxn, grid = (3, 3, 6) if tier == "quick" else (4, 4, 12)
     fd, path = tempfile.mkstemp(prefix="Domains_MC_", suffix=".cfg")
     os.close(fd)
-    tlc.write_cfg(path, spec="Spec", constants=dict(MaxU=maxu, MaxN=maxn, GridN=grid))
+    tlc.write_cfg(path, spec="Spec", constants=dict(MaxU=maxu, MaxN=maxn, GridN=grid, DegMax=16 if tier == "quick" else 40))
     try:
         r = tlc.run("Domains_MC", path, workers=1, timeout=600)
     finally:
